@@ -232,7 +232,7 @@ func refShape(t rtype, path string, enc bool) *shape {
 	if enc {
 		m = "EncodeTo"
 	}
-	if !hasMethod(q, m) {
+	if !hasMethod(q, m) && !hasMethod(q, strings.ToLower(m[:1])+m[1:]) {
 		return opaque("no " + m + " on " + q)
 	}
 	return &shape{K: "ref", Ref: q, Path: path}
@@ -443,6 +443,12 @@ func translateStmt(pkg string, st ast.Stmt, en env, enc bool, cvar string) []*sh
 	case *ast.ReturnStmt:
 		if len(s.Results) == 0 {
 			return nil
+		}
+		// "return d.ReadX()" in a decode closure: the value read is the element
+		if len(s.Results) == 1 && !enc {
+			if call, ok := s.Results[0].(*ast.CallExpr); ok {
+				return translateCall(pkg, call, en, enc, cvar, "v")
+			}
 		}
 	case *ast.ExprStmt:
 		if call, ok := s.X.(*ast.CallExpr); ok {
@@ -743,6 +749,10 @@ func main() {
 			ms := p.meths[n]
 			encD, decD := ms["EncodeTo"], ms["DecodeFrom"]
 			if encD == nil && decD == nil {
+				// unexported codec pairs (rhp/v4 RPC objects)
+				encD, decD = ms["encodeTo"], ms["decodeFrom"]
+			}
+			if encD == nil && decD == nil {
 				continue
 			}
 			to := &typeOut{Q: dir + "." + n}
@@ -903,6 +913,15 @@ func main() {
 				continue
 			}
 			fmt.Fprintf(&g, "\t{%q, reflect.TypeOf(%s.%s{})},\n", t.Q, alias[pd], n)
+		}
+		g.WriteString("}\n\n// RPC objects of rhp/v4 (unexported codec methods, driven through the verif hooks)\nvar genRhp4Objects = []struct {\n\tname string\n\tmk   func() rhp4.Object\n}{\n")
+		for _, t := range order {
+			pd, n := splitQ(t.Q)
+			ms := pkgs[pd].meths[n]
+			if pd != "rhp/v4" || !ast.IsExported(n) || ms["encodeTo"] == nil || ms["decodeFrom"] == nil || ms["maxLen"] == nil {
+				continue
+			}
+			fmt.Fprintf(&g, "\t{%q, func() rhp4.Object { return new(rhp4.%s) }},\n", t.Q, n)
 		}
 		g.WriteString("}\n")
 		writeIfChanged(filepath.Join(*hout, "gen_alltypes.go"), g.String())
